@@ -246,11 +246,23 @@ theorem create_cram_parses (expOk : List Char → Bool) (c0 : List Char) (more t
   rfl
 
 
+theorem mem_joinNl : ∀ (ls : List (List Char)) (l : List Char), l ∈ ls → ∀ c ∈ l, c ∈ Gen.joinNl ls
+  | [], _, h, _, _ => by simp at h
+  | [a], l, h, c, hc => by
+    have : l = a := by simpa using h
+    subst this
+    simpa [Gen.joinNl] using hc
+  | a :: b :: r, l, h, c, hc => by
+    simp only [Gen.joinNl, List.mem_append, List.mem_cons]
+    rcases List.mem_cons.mp h with rfl | h
+    · exact Or.inl hc
+    · exact Or.inr (Or.inr (mem_joinNl (b :: r) l h c hc))
+
 /-- **`create --format cram`, end to end** -/
 theorem create_cram_end_to_end {P : Grammar.Params} (hP : StdParams P) (m : Esc.Mode) (isOther : Char → Bool)
     (hC : m = .unicode → AsciiContract isOther) (expOk : List Char → Bool)
     (hexp : ∀ t e, Grammar.parse P t = .ok e → expOk t = true)
-    (cfg : ConfigDiff) (c0 : List Char) (more : List (List Char)) (hlines : CmdLines (c0 :: more))
+    (cfg : ConfigDiff) (c0 : List Char) (more : List (List Char)) (hlines : ∀ l ∈ c0 :: more, '\n' ∉ l)
     (hcr : ∀ l ∈ c0 :: more, '\r' ∉ l)
     (out : List UInt8) (code : Int) (h0 : 0 ≤ code) (h1 : code ≤ 255) :
     ∃ doc ts, create .cram m isOther cfg (Gen.joinNl (c0 :: more)) out code = some doc ∧
@@ -289,12 +301,47 @@ theorem create_cram_end_to_end {P : Grammar.Params} (hP : StdParams P) (m : Esc.
     intro l hl
     simp only [Cram.noNl, List.all_eq_true]
     intro c hc
-    have h1 : c ≠ '\n' := fun e => hlines.1 l hl (e ▸ hc)
+    have h1 : c ≠ '\n' := fun e => hlines l hl (e ▸ hc)
     have h2 : c ≠ '\r' := fun e => hcr l hl (e ▸ hc)
     simp [h1, h2]
   refine ⟨_, ts, ?_, hlen, hget, create_cram_parses expOk c0 more ts hcmd htsok code h0 h1⟩
   unfold create
   rw [generateTestcase_create m isOther _ _ out code hex, hts]
   rfl
+
+/-- the same for a command given as its text: ANY text without carriage return (the empty one, one that ends
+in line feeds); the command lines read back are the pieces of `split('\n')`, whose `join("\n")` is the text -/
+theorem create_cram_end_to_end_cmd {P : Grammar.Params} (hP : StdParams P) (m : Esc.Mode) (isOther : Char → Bool)
+    (hC : m = .unicode → AsciiContract isOther) (expOk : List Char → Bool)
+    (hexp : ∀ t e, Grammar.parse P t = .ok e → expOk t = true)
+    (cfg : ConfigDiff) (cmd : List Char) (hcr : '\r' ∉ cmd)
+    (out : List UInt8) (code : Int) (h0 : 0 ≤ code) (h1 : code ≤ 255) :
+    ∃ doc ts, create .cram m isOther cfg cmd out code = some doc ∧
+      ts.length = (Newline.splitAtNewline out).length ∧
+      (∀ i (h : i < (Newline.splitAtNewline out).length),
+        expectationLine m isOther (Newline.splitAtNewline out)[i] = ts[i]?) ∧
+      Cram.parseCram expOk 2 doc
+        = .ok (Cram.DocConfig.defaultCram,
+            [{ title := []
+               command := splitNl cmd []
+               exitCode := if code ≠ 0 then some code.toNat else none
+               expectations := ts
+               lineNumber := 1
+               config := some Cram.TCConfig.defaultCram }]) := by
+  cases hs : splitNl cmd [] with
+  | nil => exact absurd hs (splitNl_ne_nil cmd [])
+  | cons c0 more =>
+    have hnl := splitNl_no_nl cmd [] (by simp)
+    rw [hs] at hnl
+    have hj := joinNl_splitNl cmd []
+    rw [hs, List.nil_append] at hj
+    have hcr' : ∀ l ∈ c0 :: more, '\r' ∉ l := by
+      intro l hl hr
+      apply hcr
+      rw [← hj]
+      exact mem_joinNl (c0 :: more) l hl '\r' hr
+    have := create_cram_end_to_end hP m isOther hC expOk hexp cfg c0 more hnl hcr' out code h0 h1
+    rw [hj] at this
+    exact this
 
 end Scrut.GenLemmas
